@@ -60,7 +60,7 @@ var c09Ops = []string{
 	"LazyChild.Info", "LazyChild.With", "yield",
 	"BWSoverLock.Write", "BWSoverLock.Sync", "BWSoverUnsafe.Write(small)", "BWSoverUnsafe.Write(oversized)", "BWSoverUnsafe.Write(oversized)", "BWSoverUnsafe.Sync", "ErrnoLocked.Write+Sync", "ErrnoLocked.Write+Sync", "ErrnoLogger.Error+Sync",
 	"ReflectCtx.Info(reflect)", "ReflectCtx.Info(reflect)", "ReflectCtx.With(reflect)", "Logger.Info(unencodable)", "Logger.Error(errors)", "Logger.Info(nested)",
-	"BWSClockOnly.Write", "BWSClockOnly.Sync", "Logger.Info(ObjectValues of guarded elements)", "Logger.Info(ObjectValues of guarded elements)", "GuardedElems.Update", "ScrubObs.Info", "ScrubObs.Info", "ScrubObs.InfoFields", "ScrubObs.With", "ScrubObs.TakeAndScrub", "ScrubObs.TakeAndScrub", "Observer.Filter(panicking predicate)",
+	"SharedRestore.Call", "SharedRestore.Call", "BWSClockOnly.Write", "BWSClockOnly.Sync", "Logger.Info(ObjectValues of guarded elements)", "Logger.Info(ObjectValues of guarded elements)", "GuardedElems.Update", "ScrubObs.Info", "ScrubObs.Info", "ScrubObs.InfoFields", "ScrubObs.With", "ScrubObs.TakeAndScrub", "ScrubObs.TakeAndScrub", "Observer.Filter(panicking predicate)",
 	"Logger.Info(unencodable-last)", "Logger.Info(unencodable-last)", "DeepStack.Error", "DeepStack.Error", "Logger.Info(big)", "StdLog.Print", "StdLog.Print", "StdLog.Print", "grpc.Info", "grpc.V", "zapio.Write", "Logger.Check(disabled)", "Logger.Info(stringers)",
 }
 
@@ -170,6 +170,8 @@ func c09Run(t interface{ Fatalf(string, ...any) }, p *c09Program) (sharedWriters
 	base := zap.New(inc, zap.AddCaller(), zap.AddStacktrace(zapcore.ErrorLevel), zap.WithFatalHook(countHook{term}), zap.WithPanicHook(countHook{term}),
 		zap.Hooks(func(zapcore.Entry) error { hookN.Add(1); return nil }))
 	shared := base.WithLazy(zap.Int("lazy", 1), zap.Object("o", cntObjSafe{}))
+	sharedRestore := zap.ReplaceGlobals(shared)
+	defer sharedRestore()
 	lazyChild := shared.WithLazy(zap.String("second", "lazy")).Named("lc")
 	sg := shared.Sugar()
 	// a logger whose context already holds reflected values; every goroutine encodes through this one core
@@ -324,6 +326,10 @@ func c09Run(t interface{ Fatalf(string, ...any) }, p *c09Program) (sharedWriters
 							guarded[i].n++
 							guarded[i].mu.Unlock()
 						}
+					case "SharedRestore.Call":
+						// ONE restore function (as returned by ReplaceGlobals) called by whoever gets there - twice, from
+						// several goroutines: the globals API is documented as safe for concurrent use
+						sharedRestore()
 					case "BWSClockOnly.Write":
 						_, _ = bwsClockOnly.Write([]byte("clock-only\n"))
 					case "BWSClockOnly.Sync":
